@@ -39,6 +39,4 @@ SPEC = dict(
     stubs=["wire: simnet TCP model", "ACL filter scripted by the harness", "byzantine sources / destinations speaking raw hop / stop messages",
            "refusing resource-manager wrappers (delegate to the real one)"],
     assume=["virtual clock of testing/synctest", "reservation collection happens at least every 2 minutes"],
-    # TEMPORARY (lead): priority / pause scheduling modes off until the run-829 alarm is understood
-    env={"VERIF_PCT_PERMILLE": "-1", "VERIF_PAUSE_PERMILLE": "-1"},
 )
